@@ -489,3 +489,778 @@ def refusal_class(world, op, out) -> str:
     if kind == "paint":
         return "paint_subedit_refused:" + ("conflict_without_force" if "division" in msg else out.exc_name or "")
     return f"other:{out.exc_name}"
+
+
+# ========================================================================================
+# C01: every edit exactly invertible
+# ========================================================================================
+def _safe(fn):
+    """Run a funtracks call under the watchdog; returns (ok, result_or_exception)."""
+    from .world import OP_TIMEOUT_S, watchdog
+
+    try:
+        with warnings.catch_warnings(), watchdog(OP_TIMEOUT_S):
+            warnings.simplefilter("ignore")
+            return True, fn()
+    except Exception as e:  # noqa: BLE001
+        return False, e
+
+
+class C01Oracle(Oracle):
+    owns_history = True
+    extra_ops = {"prim": 3}
+    INTERESTING = {"dividing", "after_division", "skip_in", "skip_out", "root", "leaf"}
+
+    def before(self, op, pre):
+        self._tags = structural_tags(self.w, op)
+
+    # ---- user actions ----------------------------------------------------------------
+    def after(self, op, out, pre, post):
+        kind = op["op"]
+        tr = self.w.tracks
+        if kind in ("undo", "redo"):
+            if not out.ok:
+                self.rep(f"{kind}_raised", f"{kind}() raised {out.exc!r}")
+            return
+        if kind not in EDIT_OPS or not out.ok or out.info.get("noop"):
+            return
+        route = "undo" if len(self.w.trace) % 2 else "inverse"
+        changed = C.canon_diff(pre, post) is not None
+        if route == "undo":
+            ok, r = _safe(tr.undo)
+            if not ok:
+                self.rep(f"undo_raised:{kind}", f"undo of {kind} {op_brief(op)} raised {r!r}")
+                return
+            d = C.canon_diff(pre, C.canon(tr))
+            if d or r is not True:
+                self.rep(f"undo_mismatch:{kind}", f"undo of {kind} {op_brief(op)} does not restore the state: {d or 'returned ' + repr(r)}")
+                return
+            ok, r = _safe(tr.redo)
+            if not ok:
+                self.rep(f"redo_raised:{kind}", f"redo of {kind} {op_brief(op)} raised {r!r}")
+                return
+            d = C.canon_diff(post, C.canon(tr))
+            if d or r is not True:
+                self.rep(f"redo_mismatch:{kind}", f"redo of {kind} {op_brief(op)} does not reproduce the post-edit state: {d or 'returned ' + repr(r)}")
+                return
+        else:
+            ok, inv = _safe(out.action.inverse)
+            if not ok:
+                self.rep(f"inverse_raised:{kind}", f"inverse of {kind} {op_brief(op)} raised {inv!r}")
+                return
+            d = C.canon_diff(pre, C.canon(tr))
+            if d:
+                self.rep(f"inverse_mismatch:{kind}", f"inverse of {kind} {op_brief(op)} does not restore the state: {d}")
+                return
+            ok, inv2 = _safe(inv.inverse)
+            if not ok:
+                self.rep(f"inverse2_raised:{kind}", f"inverse of the inverse of {kind} {op_brief(op)} raised {inv2!r}")
+                return
+            d = C.canon_diff(post, C.canon(tr))
+            if d:
+                self.rep(f"inverse2_mismatch:{kind}", f"inverse of the inverse of {kind} {op_brief(op)} does not reproduce the post-edit state: {d}")
+                return
+        self.col.event(f"roundtrip:{kind}:{route}")
+        removed_extra = bool(op.get("force")) and len(set(pre["edges"]) - set(post["edges"])) > 0
+        tags = set(self._tags)
+        if changed and (tags & self.INTERESTING or removed_extra or kind == "paint"):
+            if removed_extra:
+                self.col.event("forced_removal")
+            self.col.nontrivial_case((kind, self._tags, bool(op.get("force")), route, self.w.cfg["seg"],
+                                      self.w.ndim, len(post["nodes"]) - len(pre["nodes"]),
+                                      len(post["edges"]) - len(pre["edges"])))
+
+    # ---- primitive actions -----------------------------------------------------------
+    def gen_extra(self, kind, rnd):
+        from .world import (CUSTOM_EDGE, NEW_KEY, _background_box, _pick, _unused_node_id,
+                            masks_defined)
+
+        w = self.w
+        tr = w.tracks
+        g = tr.graph
+        nodes = w.nodes()
+        subs = ["AddNode"]
+        if nodes:
+            subs += ["UpdateNodeAttrs", "UpdateTrackIDs"]
+            if any(g.degree(n) == 0 for n in nodes):
+                subs.append("DeleteNode")
+            if len(nodes) > 1:
+                subs.append("AddEdge")
+            if g.number_of_edges():
+                subs.append("DeleteEdge")
+            if tr.segmentation is not None:
+                subs += ["UpdateNodeSeg", "UpdateNodeSeg"]
+        sub = _pick(rnd, subs)
+        op = {"op": "prim", "sub": sub}
+        if sub == "AddNode":
+            t = rnd.randint(0, w.frames - 1)
+            attrs = {w.time_key: t, w.tkey: int(tr.get_next_track_id()) + rnd.randint(0, 2),
+                     CUSTOM_NODE: round(rnd.random(), 3)}
+            if w.lkey is not None:
+                attrs[w.lkey] = int(tr.get_next_lineage_id())
+            op["node"] = _unused_node_id(w, rnd)
+            op["pixels"] = None
+            if tr.segmentation is not None:
+                m = _background_box(w, rnd, t)
+                if m is None:
+                    return None
+                idx = np.nonzero(m)
+                op["pixels"] = [np.full(len(idx[0]), t).tolist(), *[a.tolist() for a in idx]]
+                if not masks_defined(w, {"op": "add_node", "pixels": op["pixels"]}):
+                    return None
+            else:
+                pos = [round(rnd.random() * (s - 1), 2) for s in w.shape]
+                if isinstance(w.pos_key, list):
+                    attrs.update(dict(zip(w.pos_key, pos)))
+                else:
+                    attrs[w.pos_key] = pos
+            op["attrs"] = attrs
+        elif sub == "DeleteNode":
+            op["node"] = _pick(rnd, [n for n in nodes if g.degree(n) == 0])
+        elif sub == "AddEdge":
+            u = _pick(rnd, nodes)
+            later = [v for v in nodes if w.time(v) > w.time(u) and not g.has_edge(u, v)]
+            if not later:
+                return None
+            op["edge"] = [u, _pick(rnd, later)]
+            op["attrs"] = {CUSTOM_EDGE: rnd.randint(1, 9)} if rnd.random() < 0.6 else {}
+        elif sub == "DeleteEdge":
+            op["edge"] = list(_pick(rnd, w.edges()))
+        elif sub == "UpdateNodeAttrs":
+            op["node"] = _pick(rnd, nodes)
+            op["attrs"] = {CUSTOM_NODE: round(rnd.random() * 50, 3)} if rnd.random() < 0.7 else {NEW_KEY: rnd.randint(0, 9)}
+        elif sub == "UpdateTrackIDs":
+            op["node"] = _pick(rnd, nodes)
+            op["tracklet_id"] = int(tr.get_next_track_id()) + rnd.randint(0, 3)
+            op["lineage_id"] = None if (w.lkey is None or rnd.random() < 0.4) else int(tr.get_next_lineage_id()) + rnd.randint(0, 2)
+        elif sub == "UpdateNodeSeg":
+            n = _pick(rnd, nodes)
+            t = w.time(n)
+            op["node"] = n
+            if rnd.random() < 0.5:
+                m = _background_box(w, rnd, t)
+                if m is None:
+                    return None
+                op["added"] = True
+            else:
+                own = tr.segmentation[t] == n
+                idx = np.nonzero(own)
+                k = len(idx[0])
+                if k < 2:
+                    return None
+                take = sorted({rnd.randint(0, k - 1) for _ in range(rnd.randint(1, max(1, k // 2)))})
+                if len(take) >= k:
+                    return None
+                m = np.zeros(w.shape, dtype=bool)
+                m[tuple(a[take] for a in idx)] = True
+                op["added"] = False
+            idx = np.nonzero(m)
+            op["pixels"] = [np.full(len(idx[0]), t).tolist(), *[a.tolist() for a in idx]]
+            if w.ndim == 4:
+                cur = tr.segmentation[t] == n
+                new = (cur | m) if op["added"] else (cur & ~m)
+                if not refs.shape3d_defined(new, w.spacing()):
+                    return None
+        return op
+
+    def apply_extra(self, op, out):
+        import funtracks.actions as fa
+
+        tr = self.w.tracks
+        sub = op["sub"]
+        px = None
+        if op.get("pixels") is not None:
+            px = tuple(np.asarray(a, dtype=np.int64) for a in op["pixels"])
+
+        def make():
+            if sub == "AddNode":
+                return fa.AddNode(tr, op["node"], dict(op["attrs"]), pixels=px)
+            if sub == "DeleteNode":
+                return fa.DeleteNode(tr, op["node"])
+            if sub == "AddEdge":
+                return fa.AddEdge(tr, tuple(op["edge"]), dict(op["attrs"]))
+            if sub == "DeleteEdge":
+                return fa.DeleteEdge(tr, tuple(op["edge"]))
+            if sub == "UpdateNodeAttrs":
+                return fa.UpdateNodeAttrs(tr, op["node"], dict(op["attrs"]))
+            if sub == "UpdateTrackIDs":
+                return fa.UpdateTrackIDs(tr, op["node"], op["tracklet_id"], op["lineage_id"])
+            if sub == "UpdateNodeSeg":
+                return fa.UpdateNodeSeg(tr, op["node"], px, added=op["added"])
+            raise AssertionError(sub)
+
+        # preconditions of the primitive must hold in *this* state (a replayed/minimised trace
+        # may have drifted): otherwise the op is skipped
+        g = tr.graph
+        if sub == "AddNode" and (op["node"] in g or (px is not None and (tr.segmentation[px] != 0).any())):
+            out.info["skipped"] = True
+            return
+        if sub in ("DeleteNode", "UpdateNodeAttrs", "UpdateTrackIDs", "UpdateNodeSeg") and op["node"] not in g:
+            out.info["skipped"] = True
+            return
+        if sub == "DeleteNode" and g.degree(op["node"]) != 0:
+            out.info["skipped"] = True
+            return
+        if sub == "AddEdge" and (any(n not in g for n in op["edge"]) or g.has_edge(*op["edge"])):
+            out.info["skipped"] = True
+            return
+        if sub == "DeleteEdge" and not g.has_edge(*op["edge"]):
+            out.info["skipped"] = True
+            return
+        if sub == "UpdateTrackIDs":
+            import networkx as nx
+
+            down = nx.descendants(g, op["node"]) | {op["node"]}
+            if any(g.nodes[n].get(self.w.tkey) == op["tracklet_id"] for n in down):
+                out.info["skipped"] = True
+                return
+        if sub == "UpdateNodeSeg":
+            t = self.w.time(op["node"])
+            vals = tr.segmentation[px]
+            if op["added"] and (vals != 0).any():
+                out.info["skipped"] = True
+                return
+            if not op["added"] and ((vals != op["node"]).any() or len(px[0]) >= int((tr.segmentation[t] == op["node"]).sum())):
+                out.info["skipped"] = True
+                return
+
+        pre = C.canon(tr)
+        ok, a = _safe(make)
+        if not ok:
+            self.rep(f"prim_raised:{sub}", f"primitive {sub} {op_brief(op)} raised {a!r} although its preconditions hold")
+            return
+        post = C.canon(tr)
+        cur = a
+        expected = [pre, post, pre]
+        names = ["inverse", "inverse_of_inverse", "inverse_of_inverse_of_inverse"]
+        for exp, name in zip(expected, names):
+            ok, cur = _safe(cur.inverse)
+            if not ok:
+                self.rep(f"prim_{name}_raised:{sub}", f"{name} of primitive {sub} {op_brief(op)} raised {cur!r}")
+                return
+            d = C.canon_diff(exp, C.canon(tr))
+            if d:
+                self.rep(f"prim_{name}_mismatch:{sub}", f"{name} of primitive {sub} {op_brief(op)}: {d}")
+                return
+        self.col.event(f"prim:{sub}")
+        if C.canon_diff(pre, post) is not None:
+            self.col.nontrivial_case(("prim", sub, self._tags, self.w.cfg["seg"], self.w.ndim,
+                                      op.get("added"), op.get("lineage_id") is not None))
+
+
+# ========================================================================================
+# C02: never-forgetting linear timeline
+# ========================================================================================
+class C02Oracle(Oracle):
+    owns_history = True
+
+    def start(self):
+        self.timeline = [C.canon(self.w.tracks)]
+        self.cur = 0
+        self.letters: list[str] = []
+        self.edit_after_undo = False
+        self.undos_since_edit_after_undo = 0
+        self.nontrivial = False
+
+    def _expect(self, where):
+        d = C.canon_diff(self.timeline[self.cur], C.canon(self.w.tracks))
+        if d:
+            self.rep(f"timeline_mismatch:{where}",
+                     f"after {''.join(self.letters)} ({where}) the state differs from timeline[{self.cur}] "
+                     f"of {len(self.timeline)}: {d}")
+            return False
+        return True
+
+    def before(self, op, pre):
+        self._full = C.full_snapshot(self.w.tracks) if op["op"] in ("undo", "redo") else None
+
+    def after(self, op, out, pre, post):
+        kind = op["op"]
+        last = len(self.timeline) - 1
+        if kind in EDIT_OPS:
+            if not out.ok or out.info.get("noop"):
+                self.letters.append("x")
+                self._expect(f"refused_{kind}")
+                return
+            self.letters.append("E")
+            if self.cur < last:
+                self.timeline.extend(reversed(self.timeline[self.cur:last]))
+                self.edit_after_undo = True
+                self.undos_since_edit_after_undo = 0
+            self.timeline.append(post)
+            self.cur = len(self.timeline) - 1
+            self.col.event(f"edit:{kind}")
+            return
+        if kind == "undo":
+            self.letters.append("U")
+            if not out.ok:
+                self.rep("undo_raised", f"undo() raised {out.exc!r} after {''.join(self.letters)}")
+                return
+            exp = self.cur > 0
+            if bool(out.result) != exp or out.result not in (True, False):
+                self.rep("undo_return", f"undo() returned {out.result!r}, timeline says {exp} (cur={self.cur})")
+                return
+            if exp:
+                self.cur -= 1
+                if self.edit_after_undo:
+                    self.undos_since_edit_after_undo += 1
+                    if self.undos_since_edit_after_undo >= 2:
+                        self.nontrivial = True
+            else:
+                self.col.event("undo_exhausted")
+                d = C.full_diff(self._full, C.full_snapshot(self.w.tracks))
+                if d:
+                    self.rep("false_undo_changed_state", f"undo() returned False but changed: {d}")
+                    return
+            self._expect("undo")
+        elif kind == "redo":
+            self.letters.append("R")
+            if not out.ok:
+                self.rep("redo_raised", f"redo() raised {out.exc!r} after {''.join(self.letters)}")
+                return
+            exp = self.cur < last
+            if bool(out.result) != exp or out.result not in (True, False):
+                self.rep("redo_return", f"redo() returned {out.result!r}, timeline says {exp} (cur={self.cur}, last={last})")
+                return
+            if exp:
+                self.cur += 1
+                if self.edit_after_undo:
+                    self.nontrivial = True
+            else:
+                self.col.event("redo_exhausted")
+                d = C.full_diff(self._full, C.full_snapshot(self.w.tracks))
+                if d:
+                    self.rep("false_redo_changed_state", f"redo() returned False but changed: {d}")
+                    return
+            self._expect("redo")
+
+    def finish(self):
+        """'every state ever visited stays reachable by undoing far enough'."""
+        tr = self.w.tracks
+        while self.cur > 0:
+            ok, r = _safe(tr.undo)
+            self.col.evaluation()
+            if not ok or r is not True:
+                self.rep("final_unwind", f"undoing far enough: undo() gave {r!r} at timeline[{self.cur}]")
+                return
+            self.cur -= 1
+            if not self._expect("final_unwind"):
+                return
+        ok, r = _safe(tr.undo)
+        if not ok or r is not False:
+            self.rep("final_unwind", f"undo() at the start of the timeline returned {r!r}")
+            return
+        if self.nontrivial:
+            self.col.event("edit_after_undo_then_deep_undo")
+            self.col.nontrivial_case(("walk", getattr(self, "label", None) or "".join(self.letters)))
+
+
+# ========================================================================================
+# C07: labels <-> nodes
+# ========================================================================================
+class C07Oracle(Oracle):
+    def start(self):
+        self._check("construction")
+
+    def _check(self, where) -> bool:
+        w = self.w
+        tr = w.tracks
+        seg = tr.segmentation
+        labels = {int(x) for x in np.unique(seg).tolist()} - {0}
+        nodes = set(w.nodes())
+        if labels != nodes:
+            self.rep(f"labels_vs_nodes:{where}",
+                     f"after {where}: labels without node {sorted(labels - nodes)}, nodes without label {sorted(nodes - labels)}")
+            return False
+        for n in nodes:
+            t = w.time(n)
+            frames = [int(f) for f in range(seg.shape[0]) if (seg[f] == n).any()]
+            if frames != [t]:
+                self.rep(f"label_frames:{where}", f"after {where}: label {n} (node time {t}) occurs in frames {frames}")
+                return False
+            exp = np.nonzero(seg[t] == n)
+            got = tr.get_pixels(n)
+            ok = got is not None and len(got) == len(exp) + 1 and np.array_equal(np.asarray(got[0]), np.full(len(exp[0]), t))
+            ok = ok and all(np.array_equal(np.asarray(a), b) for a, b in zip(got[1:], exp))
+            if not ok:
+                self.rep(f"get_pixels:{where}", f"after {where}: get_pixels({n}) is not exactly the node's pixels")
+                return False
+        return True
+
+    def before(self, op, pre):
+        if op["op"] == "paint":
+            seg = self.w.tracks.segmentation
+            t = op["time"]
+            sp = tuple(np.asarray(a, dtype=np.int64) for a in op["pixels"])
+            stroke = np.zeros(self.w.shape, dtype=bool)
+            stroke[sp] = True
+            partial = total = 0
+            for n in {int(x) for x in np.unique(seg[t][stroke]).tolist()} - {0, int(op["value"])}:
+                if ((seg[t] == n) & ~stroke).any():
+                    partial += 1
+                else:
+                    total += 1
+            v = op["value"]
+            vclass = "erase" if v == 0 else ("existing" if v in self.w.tracks.graph else "new")
+            self._desc = (vclass, min(partial, 2), min(total, 2), self.w.ndim)
+
+    def after(self, op, out, pre, post):
+        kind = op["op"]
+        tr = self.w.tracks
+        if not self._check(kind if out.ok else f"refused_{kind}"):
+            return
+        if kind != "paint" or not out.ok or out.info.get("noop"):
+            return
+        painted = out.info["painted"]
+        if not np.array_equal(tr.segmentation, painted):
+            idx = np.argwhere(tr.segmentation != painted)
+            self.rep("paint_not_as_painted", f"paint {op_brief(op)}: array differs from the painted array at {len(idx)} pixels, first {idx[0].tolist()}")
+            return
+        ok, r = _safe(tr.undo)
+        if not ok or r is not True:
+            self.rep("paint_undo_failed", f"undo of paint {op_brief(op)}: {r!r}")
+            return
+        if not np.array_equal(tr.segmentation, pre["seg"]):
+            idx = np.argwhere(tr.segmentation != pre["seg"])
+            self.rep("paint_undo_not_bit_exact", f"undo of paint {op_brief(op)}: array differs from the previous array at {len(idx)} pixels, first {idx[0].tolist()}")
+            return
+        if not self._check("undo_of_paint"):
+            return
+        ok, r = _safe(tr.redo)
+        if not ok or r is not True:
+            self.rep("paint_redo_failed", f"redo of paint {op_brief(op)}: {r!r}")
+            return
+        if not np.array_equal(tr.segmentation, painted):
+            self.rep("paint_redo_not_bit_exact", f"redo of paint {op_brief(op)}: array differs from the painted array")
+            return
+        vclass, partial, total, nd = self._desc
+        self.col.event(f"paint:{vclass}")
+        if partial or total:
+            self.col.event(f"paint:overwrite:partial={partial}:total={total}")
+            self.col.nontrivial_case(("paint", self._desc, bool(op.get("force")), op.get("order")))
+
+
+# ========================================================================================
+# C08 / C09 / C10: measurements
+# ========================================================================================
+REGION_KEYS = ("area", "ellipse_axis_radii", "circularity", "perimeter")
+
+
+def _ref_key(world, key):
+    return "pos" if key == world.pos_key else key
+
+
+def node_feature_mismatch(world, keys, nodes=None) -> str | None:
+    """Compare stored values of regionprops keys with the independent references."""
+    tr = world.tracks
+    sp = world.spacing()
+    for n in (world.nodes() if nodes is None else nodes):
+        mask = world.mask(n)
+        if not mask.any():
+            return f"node {n} has no pixels"
+        for k in keys:
+            stored = tr.graph.nodes[n].get(k)
+            ref = refs.shape_reference(mask, sp, _ref_key(world, k))
+            if ref is None:
+                continue  # reference undefined for this (degenerate) mask
+            if not refs.close(C.norm(stored), C.norm(ref)):
+                return f"node {n} {k}: stored {stored!r} != reference {ref!r}"
+    return None
+
+
+def edge_iou_mismatch(world, key="iou") -> str | None:
+    tr = world.tracks
+    for u, v in world.edges():
+        stored = tr.graph.edges[u, v].get(key)
+        ref = refs.iou(world.mask(u), world.mask(v))
+        if stored is None or not refs.close(float(stored), float(ref)):
+            return f"edge ({u},{v}) t={world.time(u)}->{world.time(v)}: stored iou {stored!r} != {float(ref)!r} ({ref})"
+    return None
+
+
+def bulk_mismatch(world, keys) -> str | None:
+    """Differential: the same keys computed from scratch (bulk path) on copies."""
+    import networkx as nx
+    from funtracks.data_model import Tracks
+
+    tr = world.tracks
+    g = nx.DiGraph()
+    for n in tr.graph.nodes:
+        g.add_node(n, **{world.time_key: world.time(n)})
+    g.add_edges_from(tr.graph.edges)
+    with warnings.catch_warnings():
+        warnings.simplefilter("ignore")
+        fresh = Tracks(g, segmentation=tr.segmentation.copy(), time_attr=world.time_key,
+                       pos_attr=world.pos_key, scale=None if tr.scale is None else list(tr.scale),
+                       ndim=world.ndim)
+        extra = [k for k in keys if k not in fresh.features]
+        if extra:
+            fresh.enable_features(extra)
+    for n in tr.graph.nodes:
+        for k in keys:
+            if k == "iou":
+                continue
+            a, b = tr.graph.nodes[n].get(k), g.nodes[n].get(k)
+            if not refs.close(C.norm(a), C.norm(b)):
+                return f"node {n} {k}: incremental {a!r} != from-scratch {b!r}"
+    if "iou" in keys:
+        for u, v in tr.graph.edges:
+            a, b = tr.graph.edges[u, v].get("iou"), g.edges[u, v].get("iou")
+            if not refs.close(a, b):
+                return f"edge ({u},{v}) iou: incremental {a!r} != from-scratch {b!r}"
+    return None
+
+
+class C08Oracle(Oracle):
+    def _keys(self):
+        feats = self.w.tracks.annotators.features
+        return [k for k in feats if k in REGION_KEYS or k == self.w.pos_key]
+
+    def start(self):
+        self._step = 0
+        m = node_feature_mismatch(self.w, self._keys())
+        if m:
+            self.rep("construction", f"after construction: {m}")
+
+    def after(self, op, out, pre, post):
+        kind = op["op"]
+        self._step += 1
+        where = kind if out.ok else f"refused_{kind}"
+        keys = self._keys()
+        m = node_feature_mismatch(self.w, keys)
+        if m:
+            self.rep(f"stale_measurement:{where}", f"after {where} {op_brief(op)}: {m}")
+            return
+        seg_changed = pre["seg"] is not None and not np.array_equal(pre["seg"], post["seg"])
+        if seg_changed:
+            changed_nodes = []
+            for n in post["nodes"]:
+                t = self.w.time(n)
+                a = pre["seg"][t] == n
+                b = post["seg"][t] == n
+                if not np.array_equal(a, b):
+                    ca, cb = int(a.sum()), int(b.sum())
+                    changed_nodes.append("new" if ca == 0 else ("grown" if cb > ca else ("shrunk" if cb < ca else "moved")))
+            if self._step % 3 == 0 or kind in ("undo", "redo"):
+                m = bulk_mismatch(self.w, keys)
+                self.col.event("bulk_differential")
+                if m:
+                    self.rep(f"bulk_vs_incremental:{where}", f"after {where} {op_brief(op)}: {m}")
+                    return
+            if changed_nodes:
+                sc = "none" if self.w.tracks.scale is None else ("aniso" if len(set(self.w.tracks.scale[1:])) > 1 else "iso")
+                for ch in set(changed_nodes):
+                    self.col.event(f"mask_change:{ch}")
+                self.col.nontrivial_case((tuple(sorted(keys)), sc, tuple(sorted(set(changed_nodes))), kind, self.w.ndim))
+
+
+class C09Oracle(Oracle):
+    extra_ops = {"iou_toggle": 1}
+
+    def _on(self):
+        return "iou" in self.w.tracks.annotators.features
+
+    def start(self):
+        self._how = {}  # edge -> 'bulk' | 'incremental'
+        if self._on():
+            m = edge_iou_mismatch(self.w)
+            self.col.event("iou_bulk_at_construction")
+            self._classify("bulk")
+            if m:
+                self.rep("bulk_at_construction", f"after construction (bulk computation): {m}")
+
+    def gen_extra(self, kind, rnd):
+        r = rnd.random()
+        return {"op": "iou_toggle", "mode": "enable" if not self._on() else ("disable" if r < 0.3 else "recompute")}
+
+    def apply_extra(self, op, out):
+        tr = self.w.tracks
+        with warnings.catch_warnings():
+            warnings.simplefilter("ignore")
+            if op["mode"] == "disable":
+                tr.disable_features(["iou"])
+            else:
+                tr.enable_features(["iou"])
+        out.info["bulk"] = op["mode"] != "disable"
+
+    def _classify(self, how):
+        w = self.w
+        for u, v in w.edges():
+            r = refs.iou(w.mask(u), w.mask(v))
+            skip = w.time(v) - w.time(u) > 1
+            if 0 < r < 1:
+                self.col.event(f"iou_edge:{'skip' if skip else 'consecutive'}:{how}")
+                self.col.nontrivial_case((how, skip, r.numerator, r.denominator))
+            elif skip:
+                self.col.event(f"iou_edge:skip:{how}:trivial")
+
+    def after(self, op, out, pre, post):
+        if not self._on():
+            return
+        kind = op["op"]
+        how = "bulk" if out.info.get("bulk") else "incremental"
+        where = (kind if out.ok else f"refused_{kind}") + (f":{op['mode']}" if kind == "iou_toggle" else "")
+        m = edge_iou_mismatch(self.w)
+        if m:
+            self.rep(f"iou_mismatch:{how}:{where}", f"after {where} {op_brief(op)} ({how}): {m}")
+            return
+        self._classify(how)
+
+
+class C10Oracle(Oracle):
+    owns_atomicity = False
+
+    def start(self):
+        tr = self.w.tracks
+        self.managed = set(tr.annotators.all_features.keys())
+        self.static = set(tr.features.keys()) - self.managed
+        self.model = set(tr.annotators.features.keys())
+        self.since: dict[str, int] = {}
+        self._check_registry("construction")
+        self._frozen = None
+
+    def _check_registry(self, where) -> bool:
+        tr = self.w.tracks
+        act = set(tr.annotators.features.keys())
+        if act != self.model:
+            self.rep(f"active_set:{where}", f"after {where}: active annotator features {sorted(act)} != model {sorted(self.model)}")
+            return False
+        reg = set(tr.features.keys())
+        if reg != self.static | self.model:
+            self.rep(f"registry:{where}", f"after {where}: registry {sorted(reg)} != static+enabled {sorted(self.static | self.model)}")
+            return False
+        return True
+
+    def _values_ok(self, keys, where) -> bool:
+        w = self.w
+        if w.tracks.segmentation is not None:
+            nk = [k for k in keys if k in REGION_KEYS or k == w.pos_key]
+            m = node_feature_mismatch(w, nk)
+            if not m and "iou" in keys:
+                m = edge_iou_mismatch(w)
+            if m:
+                self.rep(f"recomputed_value:{where}", f"after {where}: {m}")
+                return False
+        return True
+
+    def before(self, op, pre):
+        self._full = C.full_snapshot(self.w.tracks)
+        tr = self.w.tracks
+        dis = sorted(self.managed - self.model)
+        g = tr.graph
+        # (the attribute dict's identity tells whether the element itself survived the edit)
+        self._frozen = (dis, {n: (id(g.nodes[n]), {k: C.norm(g.nodes[n].get(k, "<absent>")) for k in dis}) for n in g.nodes},
+                        {e: (id(g.edges[e]), {k: C.norm(g.edges[e].get(k, "<absent>")) for k in dis}) for e in g.edges})
+
+    def after(self, op, out, pre, post):
+        kind = op["op"]
+        tr = self.w.tracks
+        where = kind if out.ok else f"refused_{kind}"
+        if kind in ("enable", "disable"):
+            unknown = [k for k in op["keys"] if k not in self.managed]
+            if unknown:
+                self.col.event(f"unknown_key:{kind}")
+                if out.ok or out.exc_name != "KeyError":
+                    self.rep(f"unknown_key_not_keyerror:{kind}", f"{kind}_features({op['keys']}) with unknown key: {'accepted' if out.ok else repr(out.exc)}")
+                    return
+                d = C.full_diff(self._full, C.full_snapshot(tr))
+                if d:
+                    self.rep(f"unknown_key_changed_state:{kind}", f"{kind}_features({op['keys']}) raised KeyError but changed: {d}")
+                    return
+                self.col.nontrivial_case((kind, "unknown", len(op["keys"]), op["keys"].index("no_such_feature")))
+            elif not out.ok:
+                self.rep(f"toggle_raised:{kind}", f"{kind}_features({op['keys']}) raised {out.exc!r}")
+                return
+            elif kind == "enable":
+                stale = [k for k in op["keys"] if self.since.get(k, 0) > 0]
+                self.model |= set(op["keys"])
+                if not self._check_registry(where) or not self._values_ok(op["keys"], where):
+                    return
+                self.col.event("enable")
+                if stale:
+                    self.col.event("enable_after_edits")
+                    self.col.nontrivial_case(("enable", tuple(sorted(op["keys"])), tuple(min(self.since.get(k, 0), 5) for k in sorted(op["keys"])),
+                                              self.w.ndim, self.w.cfg["route"]))
+                for k in op["keys"]:
+                    self.since[k] = 0
+            else:
+                self.model -= set(op["keys"])
+                self.col.event("disable")
+            self._check_registry(where)
+            return
+        if kind == "attrs":
+            prot = [k for k in op["attrs"] if k in self.managed or k == self.w.time_key]
+            if prot and op["node"] in pre["nodes"]:
+                self.col.event("protected_attr:" + ("enabled" if prot[0] in self.model or prot[0] == self.w.time_key else "disabled"))
+                self.col.nontrivial_case(("protected", prot[0] in self.model, len(op["attrs"]), list(op["attrs"]).index(prot[0])))
+                if out.ok:
+                    self.rep("protected_attr_accepted", f"attrs {op['attrs']} on node {op['node']} was accepted although {prot} is managed/time")
+                    return
+                d = C.full_diff(self._full, C.full_snapshot(tr))
+                if d:
+                    self.rep("protected_attr_changed_state", f"refused attrs {op['attrs']} changed: {d}")
+                    return
+        if not self._check_registry(where):
+            return
+        # enabled features keep tracking the state
+        if not self._values_ok(sorted(self.model), where):
+            return
+        # disabled features are no longer changed by edits
+        dis, nvals, evals = self._frozen
+        if kind in EDIT_OPS and out.ok:
+            g = tr.graph
+            for n, (ident, vals) in nvals.items():
+                if n in g and id(g.nodes[n]) == ident:
+                    for k in dis:
+                        now = C.norm(g.nodes[n].get(k, "<absent>"))
+                        if now != vals[k]:
+                            self.rep(f"disabled_feature_changed:{kind}", f"{kind} {op_brief(op)} changed disabled feature {k} of node {n}: {vals[k]!r} -> {now!r}")
+                            return
+            for e, (ident, vals) in evals.items():
+                if g.has_edge(*e) and id(g.edges[e]) == ident:
+                    for k in dis:
+                        now = C.norm(g.edges[e].get(k, "<absent>"))
+                        if now != vals[k]:
+                            self.rep(f"disabled_feature_changed:{kind}", f"{kind} {op_brief(op)} changed disabled feature {k} of edge {e}: {vals[k]!r} -> {now!r}")
+                            return
+            if C.canon_diff(pre, post) is not None or (pre["seg"] is not None and not np.array_equal(pre["seg"], post["seg"])):
+                for k in self.managed:
+                    self.since[k] = self.since.get(k, 0) + 1
+                if dis:
+                    self.col.event("edit_with_disabled_feature")
+
+    def finish(self):
+        """Registry-level toggling of the core id / position features (no edits follow)."""
+        w = self.w
+        tr = w.tracks
+        core = [w.tkey] + ([w.lkey] if w.lkey else [])
+        if tr.segmentation is not None and isinstance(w.pos_key, str):
+            core += [w.pos_key, "area"]
+        core = [k for k in core if k in self.managed]
+        for k in core:
+            ok, r = _safe(lambda k=k: tr.disable_features([k]))
+            self.col.evaluation()
+            if not ok:
+                self.rep("core_toggle_raised", f"disable_features([{k!r}]) raised {r!r}")
+                return
+            self.model.discard(k)
+            if not self._check_registry(f"disable_core:{k}"):
+                return
+            ok, r = _safe(lambda k=k: tr.enable_features([k]))
+            if not ok:
+                self.rep("core_toggle_raised", f"enable_features([{k!r}]) raised {r!r}")
+                return
+            self.model.add(k)
+            if not self._check_registry(f"enable_core:{k}"):
+                return
+            st = C.canon(tr)
+            if k == w.tkey:
+                mm = refs.partition_mismatch({n: a.get(k) for n, a in st["nodes"].items()}, refs.tracklets(st["nodes"], st["edges"]))
+            elif k == w.lkey:
+                mm = refs.partition_mismatch({n: a.get(k) for n, a in st["nodes"].items()}, refs.lineages(st["nodes"], st["edges"]))
+            else:
+                mm = node_feature_mismatch(w, [k])
+            if mm:
+                self.rep(f"core_recompute:{k}", f"after re-enabling {k}: {mm}")
+                return
+            self.col.event("core_toggle")
